@@ -102,7 +102,7 @@ func (a *adversary) handshake(nc net.Conn) bool {
 		BitfieldBytes: bitfieldBytes(uint(a.nPieces), a.tp.Chance(500))}
 	m := &p2p.Message{Type: p2p.Message_BITFIELD, Bitfield: bf}
 	valid := true
-	switch a.tp.Draw(9) {
+	switch a.tp.Draw(10) {
 	case 0: // valid
 	case 1: // bitfield of the wrong size
 		sizes := []uint{0, 1, uint(a.nPieces) + 1, uint(a.nPieces) + 64, 1 << 16}
@@ -130,6 +130,20 @@ func (a *adversary) handshake(nc net.Conn) bool {
 			bf.InfoHash = "00"
 		}
 		valid = false
+	case 9: // correct announced length, but bits set beyond it in the last word
+		b := bitfieldBytes(uint(a.nPieces), a.tp.Chance(500))
+		if len(b) >= 16 {
+			for i := len(b) - 8; i < len(b); i++ {
+				b[i] = 0xff
+			}
+			if a.tp.Chance(500) {
+				b[len(b)-8] = 0x80 // only the highest bit of the last word
+				for i := len(b) - 7; i < len(b); i++ {
+					b[i] = 0
+				}
+			}
+		}
+		bf.BitfieldBytes = b
 	case 8: // unknown torrent
 		bf.InfoHash = hex.EncodeToString(kit.Bytes(a.s, 20))
 		bf.Name = hex.EncodeToString(kit.Bytes(a.s, 32))
